@@ -690,7 +690,8 @@ def run_check(mod, tier="quick", seed=0, replay=None):
             except Exception as e:
                 okp, detail = False, "predicate raised %r" % (e,)
             if not okp:
-                failing.append((dict(c, _env=xenv), o, "env[%s]-%s" % (tag, detail), hashseeds[0]))
+                # the detail keeps its form (finding_of attributes known findings by it); the environment travels in the case
+                failing.append((dict(c, _env=xenv), o, detail, hashseeds[0]))
     log("[%s] %d evaluations, %d disagreements, %d legacy-agreements, %d predicate failures, %d skipped"
         % (pid, evaluations, len(disagreements), len(legacy_hits), len(failing), skipped))
 
@@ -735,6 +736,8 @@ def run_check(mod, tier="quick", seed=0, replay=None):
             _, sdetail = mod.predicate(small, so)
         except Exception:
             so, sdetail = o, detail
+        if c.get("_env"):
+            detail = "%s [under %s]" % (detail, ",".join("%s=%s" % kv for kv in sorted(c["_env"].items())))
         violations.append(("input", detail, {
             "property": pid, "kind": "failing-input", "case": small, "original_case": c, "impl_output": so,
             "spec_detail": sdetail, "hashseed": hs, "env": c.get("_env"),
